@@ -106,8 +106,10 @@ def run(rep, tier, seed):
     lines, expect, cases = [], [], []
     hist = dict(A=0, B=0, C=0, raised=0)
     nquad = 300 if tier == "quick" else 5000
-    for _ in range(nquad):
-        a, b, c, d, x0, z0, rtol, t0 = gen_quad(rng)
+    nan_starts = [(1.0, 1.0, 0.0, -1.0, 1.0, float("nan"), 1e-3, 0.0), (0.0, 1.0, 1.0, 0.0, 0.25, float("nan"), 1e-6, 1.0),
+                  (0.0, 4.0, -1.0, 5.0, float("nan"), 1.0, 1e-3, 0.0), (3.0, 0.0, 0.0, -2.0, -2.0, float("inf"), 1e-9, -3.5)]
+    for iq in range(nquad + len(nan_starts)):
+        a, b, c, d, x0, z0, rtol, t0 = gen_quad(rng) if iq < nquad else nan_starts[iq - nquad]
         case = dict(a=a, b=b, c=c, d=d, x0=x0, z0=z0, rtol=rtol, t0=t0)
         dae = quad_dae(a, b, c, d)
         y0 = np.array([x0, z0])
@@ -119,7 +121,7 @@ def run(rep, tier, seed):
             g = a * y[1] * y[1] + b * y[1] + c * y[0] + d
             if not (abs(g) <= max(1e-6, 1e-5 * rtol) * (1 + 1e-12)):
                 fails.append((case, f"DaeIc returned z = {y[1]!r} with algebraic residual {g!r} (> 1e-6): an inconsistent start is used silently"))
-            if f2h(y[0]) != f2h(x0):
+            if f2h(y[0]) != f2h(x0) and x0 == x0:
                 fails.append((case, f"DaeIc changed the differential variable: {x0!r} -> {y[0]!r}"))
         except ValueError:
             ans = "err value"
@@ -128,7 +130,7 @@ def run(rep, tier, seed):
             ans = "err other"
             # singular 1x1 solve etc.: raising is allowed by the property
             hist["raised"] += 1
-        if not np.array_equal(y0, y0c):
+        if not np.array_equal(y0, y0c, equal_nan=True):
             fails.append((case, f"DaeIc modified the caller's y0 in place: {y0c} -> {y0}"))
         lines.append("c11 quad " + " ".join(f2h(v) for v in (a, b, c, d, x0, z0, rtol, float(np.spacing(t0)))))
         expect.append(ans); cases.append(case)
@@ -159,6 +161,8 @@ def run(rep, tier, seed):
                    ode15s=lambda d, ts, y, rt: ode15s(d, ts, y, Opt(rtol=rt)),
                    backward_euler=lambda d, ts, y, rt: backward_euler(d, ts, y, Opt(rtol=rt, step_size=0.05)),
                    implicit_trapezoid=lambda d, ts, y, rt: implicit_trapezoid(d, ts, y, Opt(rtol=rt, step_size=0.05)))
+    from Solverz.variable.variables import Vars
+    rng_v = np.random.default_rng([seed, 1111])
     for _ in range(nfam):
         try:
             ndae, sdae, y0, xs, zs, order = semi_explicit(rng)
@@ -172,15 +176,17 @@ def run(rep, tier, seed):
                 ystart[y0.a[zn]] += pert * (1 + rng.random())
             for sname, solver in solvers.items():
                 nruns += 1
+                as_vars = bool(rng_v.random() < 0.5)
                 case = dict(order=[str(o) for o in order], eqn_order=list(sdae.a.object_list), pert=pert, t0=t0, solver=sname,
-                            y_start=[float(v) for v in ystart])
-                yin = ystart.copy()
+                            y_start=[float(v) for v in ystart], start_given_as="Vars" if as_vars else "ndarray")
+                hist["start_Vars" if as_vars else "start_ndarray"] = hist.get("start_Vars" if as_vars else "start_ndarray", 0) + 1
+                yin = Vars(y0.a, ystart.copy()) if as_vars else ystart.copy()
                 try:
                     sol = quiet(solver, ndae, [t0, t0 + 0.1], yin, 1e-3)
                 except Exception:  # noqa
                     continue        # raising is allowed
-                Y0 = np.asarray(sol.Y)[0]
-                if not np.array_equal(yin, ystart):
+                Y0 = np.asarray(sol.Y.array if hasattr(sol.Y, "array") else sol.Y)[0]
+                if not np.array_equal(yin.array if as_vars else yin, ystart):
                     fails.append((case, f"{sname} modified the caller's initial values"))
                 for xn in xs:
                     sl = y0.a[xn]
@@ -215,6 +221,30 @@ def run(rep, tier, seed):
                     fails.append((case, f"{sname}: first row changed the differential variable: {x0!r} -> {Y0[0]!r}"))
                 elif not abs(Y0[1] ** 2 - Y0[0]) <= 2e-6:
                     fails.append((case, f"{sname}: first row has algebraic residual {abs(Y0[1] ** 2 - Y0[0]):.3g}: starts from an inconsistent point silently"))
+    # ---- an algebraic start outside the domain of its equation (0 = ln z - x or 0 = sqrt z - x started at z < 0): the residual at the
+    #      start is NaN; this is not a consistent point and must not be used silently
+    for nm, gf, dgf in (("ln", np.log, lambda z: 1.0 / z), ("sqrt", np.sqrt, lambda z: 0.5 / np.sqrt(z))):
+        for sparse in (True, False):
+            wrap = _csc if sparse else (lambda a: a)
+            dom = _nDAE(Ms, lambda t, y, p, gf=gf: np.array([-y[0], gf(y[1]) - y[0]]),
+                        lambda t, y, p, dgf=dgf, wrap=wrap: wrap(np.array([[-1.0, 0.0], [-1.0, dgf(y[1])]])), {})
+            for z0 in (-1.5, -1e-3):
+                for t0 in (0.0, 2.0):
+                    for sname, solver in solvers.items():
+                        nruns += 1
+                        case = dict(problem=f"x' = -x, 0 = {nm}(z) - x", y_start=[0.5, z0], t0=t0, sparse_jacobian=sparse, solver=sname)
+                        try:
+                            sol = quiet(solver, dom, [t0, t0 + 0.1], np.array([0.5, z0]), 1e-3)
+                        except Exception:  # noqa
+                            continue
+                        Y0 = np.asarray(sol.Y)[0]
+                        with np.errstate(all="ignore"):
+                            r = abs(gf(Y0[1]) - Y0[0])
+                        if f2h(Y0[0]) != f2h(0.5):
+                            fails.append((case, f"{sname}: first row changed the differential variable: 0.5 -> {Y0[0]!r}"))
+                        elif not r <= 2e-6:
+                            fails.append((case, f"{sname}: no error was raised and the first row {list(Y0)} has algebraic residual {r}: "
+                                                f"starts from an inconsistent point silently"))
     rep.cov["evaluations"] = len(lines) + nruns
     rep.cov["distinct_nontrivial"] = len(set(lines))
     rep.cov["rule"] = ("quadratic-constraint family: coefficients, starts (incl. zero, tiny, far), rtol, t0 from fixed pools; exact comparison with the "
